@@ -20,10 +20,12 @@ def lib():
         import jax.numpy as jnp
         from optimism import EquationSolver as ES, Objective as OBJ, WarmStart as WS
         from optimism import SparseCholesky as SC
+        from optimism import EquationSolverSubspace as ESS
+        from optimism.treigen import treigen as TRE
         from scipy.sparse import csc_matrix
         f = families.jax_objective()
         hess = jax.jit(jax.hessian(f, 0))
-        _cache['lib'] = dict(jax=jax, jnp=jnp, ES=ES, OBJ=OBJ, WS=WS, SC=SC, f=f, hess=hess,
+        _cache['lib'] = dict(jax=jax, jnp=jnp, ES=ES, OBJ=OBJ, WS=WS, SC=SC, ESS=ESS, TRE=TRE, f=f, hess=hess,
                              csc=csc_matrix, objs={})
     return _cache['lib']
 
@@ -100,6 +102,11 @@ def gen_config(rng, prop, fault_mode):
            'x0seed': int(rng.integers(0, 2**31))}
     if fam in ('Qi', 'S', 'L') and cfg['nneg'] > 0:
         cfg['qscale'] = max(cfg['qscale'], 1e-2)     # quartic keeps the objective bounded below
+    if fam == 'S' and rng.random() < 0.6:
+        # exactly quadratic: the gradient at the symmetric start is an eigenvector of the Hessian to
+        # rounding, which is what the degenerate "hard case" of the exact sub-problem solver needs
+        cfg.update(quartic=False, nneg=max(1, cfg['nneg']), precond=str(rng.choice(['poor', 'diag'])),
+                   cond=float(10.0 ** rng.uniform(0, 2)))
     if fam == 'L':
         cfg.update(nneg=0, quartic=False, cond=1.0, sigscale=float(10.0 ** rng.uniform(-1.5, 0)),
                    ascale=float(10.0 ** rng.uniform(-0.3, 0.7)), wscale=1.0, nonlinear_p=False)
@@ -146,6 +153,9 @@ def gen_program(rng, prop, tier, run_index):
                 if op['warm'] and rng.random() < 0.2:
                     op['cgmax'] = int(rng.integers(1, 4))
             ops.append(op)
+        elif r < 0.8 and prop == 'C06' and rng.random() < 0.7:
+            ops.append({'op': 'subspace', 'settings': gen_settings(rng, 'swarm'),
+                        **({'chol': gen_chol(rng)} if fault_mode and rng.random() < 0.5 else {})})
         elif r < 0.8:
             op = {'op': 'refresh', 'where': str(rng.choice(['here', 'elsewhere'])), 'pseed': int(rng.integers(0, 2**31))}
             if fault_mode and rng.random() < 0.5:
@@ -156,6 +166,9 @@ def gen_program(rng, prop, tier, run_index):
                         **({'cgmax': int(rng.integers(1, 4))} if fault_mode and rng.random() < 0.2 else {})})
         else:
             ops.append({'op': 'restart', 'fresh': bool(rng.random() < 0.15)})
+    if cfg['family'] == 'S' and prop == 'C06' and rng.random() < 0.7:
+        ops[0] = {'op': 'subspace', 'settings': {'tr_size': float(10.0 ** rng.uniform(-1, 1)),
+                                                 'max_trust_iters': int(rng.integers(1, 6))}}
     if cfg['family'] == 'L':
         ops[0] = {'op': 'solve', 'driver': 'trm', 'warm': False, 'upd': True, 'dp': {},
                   'settings': {'tr_size': 1e3, 'tol': float(10.0 ** rng.uniform(-8, -5))}}
@@ -241,6 +254,50 @@ def _with_op(program, i, op):
 # the simulated application
 # ----------------------------------------------------------------------------
 
+def tr_reference(H, g, D):
+    """Global minimiser of g.s + 1/2 s'Hs over |s| <= D (More-Sorensen on the eigen-decomposition,
+    bisection on the secular equation, explicit hard case).  Returns (s, is_hard_case)."""
+    w, V = np.linalg.eigh(H)
+    gt = V.T @ g
+    n = g.size
+    if w[0] > 0:
+        p = -gt / w
+        if np.linalg.norm(p) <= D:
+            return V @ p, False
+    lam_lo = max(0.0, -w[0])
+    scale = max(np.max(np.abs(w)), np.linalg.norm(g) / D, 1e-300)
+    low = np.abs(w - w[0]) <= 1e-12 * scale          # lowest eigenspace
+    if lam_lo > 0 or w[0] <= 0:
+        g_low = np.linalg.norm(gt[low])
+        if g_low <= 1e-12 * (np.linalg.norm(g) + 1e-300):
+            # potential hard case: solve without the lowest eigenspace at lam = -w0
+            rest = ~low
+            p = np.zeros(n)
+            p[rest] = -gt[rest] / (w[rest] + lam_lo)
+            if np.linalg.norm(p) <= D:
+                tau = np.sqrt(max(D * D - p @ p, 0.0))
+                p[np.flatnonzero(low)[0]] = tau
+                return V @ p, True
+    phi = lambda lam: np.linalg.norm(gt / (w + lam))
+    lo = lam_lo
+    hi = lam_lo + np.linalg.norm(g) / D + scale
+    while phi(hi) > D:
+        hi = lam_lo + 2 * (hi - lam_lo)
+    for _ in range(300):
+        mid = 0.5 * (lo + hi)
+        if mid == lo or mid == hi:
+            break
+        with np.errstate(divide='ignore', invalid='ignore'):
+            v = phi(mid)
+        if not np.isfinite(v) or v > D:
+            lo = mid
+        else:
+            hi = mid
+    with np.errstate(divide='ignore', invalid='ignore'):
+        p = -gt / (w + hi)
+    return V @ p, False
+
+
 class App:
     def __init__(self, program, ctx):
         L = lib()
@@ -270,6 +327,7 @@ class App:
         seams.patch(WS, 'cg', self.cgseam)
         self.monitor = seams.SubproblemMonitor(ES, ctx, self.current_M)
         self.monitor.install()
+        self.install_treigen_monitor()
         self.trials = 0
         self.trial_bound = None
         real_banner = ES.print_min_banner
@@ -299,6 +357,86 @@ class App:
         if cfg.get('scaled_replica'):
             self.make_scaled()
 
+    # -- C06: exact eigenvalue-based sub-problem solver, audited in situ ---------------
+    def install_treigen_monitor(self):
+        TRE, ctx = self.L['TRE'], self.ctx
+        real = TRE.solve
+        real_q = TRE.qnorm_squared
+        count = [0]
+
+        class SecularIterationCap(Exception):
+            pass
+
+        def qnorm_squared(bvv, sig):
+            # called once per iteration of the (uncapped) secular-equation loop: a deterministic step counter
+            count[0] += 1
+            if count[0] > 5000:
+                raise SecularIterationCap()
+            return real_q(bvv, sig)
+        seams.patch(TRE, 'qnorm_squared', qnorm_squared)
+
+        def solve(A, b, Delta):
+            count[0] = 0
+            try:
+                out = real(A, b, Delta)
+            except SecularIterationCap:
+                Hh, gg = np.asarray(A, dtype=float), np.asarray(b, dtype=float)
+                w = np.linalg.eigvalsh(0.5 * (Hh + Hh.T))
+                ctx.violate('C06', 'treigen/terminates',
+                            'exact sub-problem solver did not return: > 5000 secular-equation iterations (dimension %d, eigenvalues %s, |g| %.6g, radius %.6g)'
+                            % (gg.size, np.array2string(w, precision=6), np.linalg.norm(gg), float(Delta)),
+                            sig={'dim': int(gg.size)}, data={'H': Hh, 'g': gg, 'Delta': float(Delta)})
+                raise core.RunAbort('treigen did not terminate')
+            H, g, s = np.asarray(A, dtype=float), np.asarray(b, dtype=float), np.asarray(out, dtype=float)
+            D = float(Delta)
+            if not (np.all(np.isfinite(H)) and np.all(np.isfinite(g)) and np.isfinite(D) and D > 0):
+                ctx.skip('C06.treigen/nonfinite_input')
+                return out
+            H = 0.5 * (H + H.T)
+            ref, hard = tr_reference(H, g, D)
+            ctx.probe('treigen:' + ('hard_case' if hard else ('interior' if np.linalg.norm(ref) < D * (1 - 1e-9) else 'boundary')))
+            if not np.all(np.isfinite(s)):
+                ctx.violate('C06', 'treigen/finite', 'exact sub-problem solver returned a non-finite step', sig={'hard': hard})
+                return out
+            m = lambda z: float(g @ z + 0.5 * z @ (H @ z))
+            scale = abs(m(ref)) + np.linalg.norm(g) * D + 0.5 * np.linalg.norm(H, 2) * D * D + 1e-300
+            ctx.require(np.linalg.norm(s) <= D * (1 + 1e-6), 'C06', 'treigen/inside',
+                        lambda: 'exact sub-problem step has norm %.12g > radius %.12g' % (np.linalg.norm(s), D), sig={'hard': hard})
+            ctx.require(m(s) <= m(ref) + 1e-6 * scale, 'C06', 'treigen/global_minimiser',
+                        lambda: 'model value %.12g at the returned step, global minimum over the ball is %.12g (dimension %d, %s)'
+                        % (m(s), m(ref), g.size, 'hard case' if hard else 'regular case'), sig={'hard': hard})
+            return out
+        seams.patch(TRE, 'solve', solve)
+
+    def subspace(self, op):
+        ctx, L = self.ctx, self.L
+        jnp, ESS = L['jnp'], L['ESS']
+        st = self.settings(op.get('settings') or {})
+        self.obj.p = self.P()
+        self.plan.masks = list(op.get('chol', []))
+        self.active = self.obj
+        trace = []
+        try:
+            with core.quiet_stdout():
+                self.obj.update_precond(jnp.asarray(self.x))
+                xr = ESS.trust_region_subspace_minimize(self.obj, jnp.asarray(self.x), st,
+                                                        callback=lambda xk, o: trace.append(np.array(xk, dtype=float)))
+        except (core.RunTimeout, core.Violation):
+            raise
+        except Exception as e:
+            ctx.probe('subspace:raised_' + type(e).__name__)
+            return
+        finally:
+            self.plan.masks = []
+        self.have_precond = True
+        xr = np.array(xr, dtype=float)
+        ctx.log.add('subspace_return', x=xr, iters=len(trace))
+        if core.finite(xr) and not self.ev.in_barrier(xr):
+            self.x = xr
+        if trace:
+            ctx.nontrivial = True
+        ctx.label('subspace')
+
     # -- parameters -------------------------------------------------------------
     def P(self, pnp=None):
         pnp = self.pnp if pnp is None else pnp
@@ -312,7 +450,7 @@ class App:
         for quadratic part only (exact when the extra terms vanish at that point, else close)."""
         c = self.coefs
         sig, Q = c['_sig'], c['_Q']
-        j = int(np.argmax(np.abs(sig)))
+        j = int(np.argmax(sig))
         nz = np.abs(sig) > 1e-12
         lin = self.ev.lin(self.pnp)
         y = np.zeros(self.n)
@@ -752,6 +890,8 @@ def run_program(program, ctx):
             app.restart(op)
         elif k == 'warm_only':
             app.warm_only(op)
+        elif k == 'subspace':
+            app.subspace(op)
     ctx.count('faults', 'chol_identity_fallback', app.plan.identity_fallbacks) if app.plan.identity_fallbacks else None
 
 
